@@ -256,7 +256,9 @@ pub struct Cl {
     /// (server entity, pre-spawned client entity, client entity despawned before arrival)
     pub pre: Vec<(Entity, Entity, bool)>,
     /// mutate index -> (tick, server frame it was built in, entities)
-    pub inflight: BTreeMap<u16, (u32, usize, Vec<Entity>)>,
+    /// mutate index -> messages sent with that index: (tick, server frame it was built in, entities,
+    /// handed to the client by the transport). An acknowledgement only counts for messages the client got.
+    pub inflight: BTreeMap<u16, Vec<(u32, usize, Vec<Entity>, bool)>>,
     pub used_idx: BTreeSet<u16>,
     pub acked_frame: BTreeMap<Entity, usize>,
     pub maybe_acked: BTreeMap<Entity, usize>,
@@ -845,6 +847,11 @@ impl Sim {
         if ch == 1 {
             if let Some(mm) = wire::mutate_msg(&m, self.cfg.track) {
                 *self.clients[ci].delivered_per_tick.entry(mm.tick).or_default() += 1;
+                if let Some(list) = self.clients[ci].inflight.get_mut(&mm.index) {
+                    if let Some(m) = list.iter_mut().find(|x| x.0 == mm.tick && !x.3) {
+                        m.3 = true;
+                    }
+                }
                 self.clients[ci].delivered_reqs.entry(mm.tick).or_default().push(mm.update_tick);
                 let u = self.clients[ci].last_update_tick;
                 if mm.update_tick > u {
@@ -867,7 +874,13 @@ impl Sim {
             let timeout_frames = (self.cfg.timeout_ms / FRAME_MS) as usize;
             let c = &mut self.clients[ci];
             for idx in wire::acks(&m) {
-                if let Some((_, f, ents)) = c.inflight.remove(&idx) {
+                let Some(list) = c.inflight.get_mut(&idx) else { continue };
+                let got: Vec<(u32, usize, Vec<Entity>, bool)> = list.iter().filter(|m| m.3).cloned().collect();
+                list.retain(|m| !m.3);
+                if list.is_empty() {
+                    c.inflight.remove(&idx);
+                }
+                for (_, f, ents, _) in got {
                     for e in ents {
                         // the server keeps an in-flight entry for at least `mutations_timeout`
                         if frame_no - f + 5 < timeout_frames {
@@ -1153,7 +1166,16 @@ impl Sim {
         } else if self.prof.struct_bias > 0 && self.rng.below(8) < self.prof.struct_bias {
             k = [0, 2, 3, 4, 4, 3, 15, 16][self.rng.below(8)];
         } else if self.cfg.rel && self.prof.rel_bias > 0 && self.rng.below(8) < self.prof.rel_bias {
-            k = [13, 21, 13, 21, 14, 22, 23, 23][self.rng.below(8)];
+            k = [13, 21, 13, 21, 14, 22, 23, 24][self.rng.below(8)];
+        }
+        if k == 24 {
+            // the marker inserted again on an entity that already replicates (e.g. a re-applied bundle)
+            if let Some(e) = pick.filter(|e| self.server.world().entity(*e).contains::<Replicated>()) {
+                self.server.world_mut().entity_mut(e).insert(Replicated);
+                self.note(format!("reinsert marker {e}"));
+                self.obs.inc("op_marker_reinsert");
+            }
+            return;
         }
         if k == 23 {
             // marker and relationship inserted in ONE bundle (both graph observers fire)
